@@ -14,32 +14,38 @@ open J5V.Go J5V.Compile J5V.Pipe
 
 /-- **Path round trip.** For the request message the compiler emits (proto name `ToSnake n`,
 explicit JSON name `n` for each declared property `n`), the consumer's rewrite undoes the
-producer's: the client API shows exactly the declared (resolved) path. Side conditions, both
-decidable: distinct properties have distinct proto names (`SnakeInjective`; protobuf enforces it),
-and literal parts contain none of `{ } * :` (`LiteralsClean`; **not** enforced by the compiler —
-open finding, see `C16_path_inverse_counterexample`). -/
-theorem C16_path_inverse_partial (props : List Str) (path p' : Str)
-    (hlit : LiteralsClean path) (hinj : SnakeInjective props)
+producer's: whatever path the compiler accepts, the client API shows exactly that (resolved)
+path. The one side condition on identifiers: distinct request properties have distinct proto
+field names (`SnakeInjective`, decidable; protobuf's linker rejects the message otherwise, e.g.
+`fooId` next to `foo_id`). Full strength since `fix:` 5ac34d8 (compiler rejects literal parts
+containing `{ } * :`); before it this needed the extra hypothesis `LiteralsClean`. -/
+theorem C16_path_inverse (props : List Str) (path p' : Str) (hinj : SnakeInjective props)
     (h : rewrite props path = .ok p') : unrewrite (fieldsOf props) p' = .ok path :=
-  path_roundtrip props path p' hlit hinj h
+  path_roundtrip props path p' hinj h
 
-/-- the full-strength statement: whatever path the compiler accepts comes back unchanged -/
-def PathInverseFull : Prop :=
-  ∀ (props : List Str) (path p' : Str), SnakeInjective props →
-    rewrite props path = .ok p' → unrewrite (fieldsOf props) p' = .ok path
-
-/-- … is false of the code as it is: `httpPath = "/a:b"` is accepted by the compiler and rejected
-by `structure.buildMethod` ("invalid path part"); `"/{x}"` with a property `x` silently comes back
-as `"/:x"`. Replays: kernel ops `pp 2f613a62` and `pp 2f7b787d 78`. -/
-theorem C16_path_inverse_counterexample : ¬ PathInverseFull := by
-  intro h
-  have := h [] b!"/a:b" b!"/a:b" (by decide) (by decide)
-  revert this
+/-- the witnesses of the repaired finding (`path:literal-rejected-downstream`,
+`path:roundtrip-differs`; replays: kernel ops `pp 2f613a62`, `pp 2f7b787d 78`): the compiler now
+rejects them, while the consumer still reads them the way that made them findings -/
+theorem C16_path_literal_rejected :
+    (rewrite [] b!"/a:b").isErr = true ∧ (rewrite [b!"x"] b!"/{x}").isErr = true
+    ∧ (unrewrite (fieldsOf []) b!"/a:b").isErr = true
+    ∧ unrewrite (fieldsOf [b!"x"]) b!"/{x}" = .ok b!"/:x" := by
   decide
 
-theorem C16_path_reinterpreted_counterexample :
-    rewrite [b!"x"] b!"/{x}" = .ok b!"/{x}" ∧ unrewrite (fieldsOf [b!"x"]) b!"/{x}" = .ok b!"/:x" := by
-  decide
+/-- the accepted paths are exactly those whose parameters name properties and whose literal
+parts are clean -/
+theorem C16_path_accepted_iff (props : List Str) (path : Str) :
+    (∃ p', rewrite props path = .ok p') ↔
+      (LiteralsClean path ∧ ∀ n ∈ pathParamNames path, n ∈ props) := by
+  constructor
+  · rintro ⟨p', h⟩
+    obtain ⟨hparam, hlit, _⟩ := rewrite_ok props path p' h
+    refine ⟨hlit, ?_⟩
+    intro n hn
+    obtain ⟨part, hp, hpn⟩ := (mem_pathParamNames path n).mp hn
+    exact hparam part hp n hpn
+  · rintro ⟨hlit, hparam⟩
+    exact ⟨_, rewrite_ok_of_params props path hparam hlit⟩
 
 /-- the compiler accepts a path only if every path parameter names a request property -/
 theorem C16_path_params_named (props : List Str) (path p' : Str) (h : rewrite props path = .ok p') :
@@ -141,6 +147,13 @@ theorem C16_walk_terminates (g : Graph) (root : Nat) :
   rw [hr]
   exact walkFuel_mono g _ fuel root [] [] r hf hr
 
+/-- **No error from the list-request walk**: on a linked schema graph (every reference resolved —
+what `assertRefsLink` has established before) the walk returns its visits from every schema,
+recursive or not -/
+theorem C16_walk_ok (g : Graph) (hl : Linked g) (root : Nat) (hroot : root < g.length) :
+    ∃ vs, walk g root = some (.ok vs) :=
+  walkFuel_ok g hl (g.length + 1) root [] [] ⟨List.nodup_nil, by simp⟩ hroot (by simp)
+
 /-- `collectPackageRefs` terminates on every finite schema graph -/
 theorem C16_refs_terminates (g : Graph) (roots : List Field) : ∃ s, collect g roots = some s :=
   collect_isSome g roots
@@ -155,37 +168,30 @@ theorem C16_refs_complete (g : Graph) (roots : List Field) (s : List Nat)
 
 /-! ## the chain, composed, for declared services -/
 
-/-- full strength: for every service the compiler accepts, the client API lists exactly the
-declared service and methods with the declared verb, path, request split and response -/
-def CompilerAccepts (s : ServiceDecl) : Prop :=
-  ∀ m ∈ s.methods, SnakeInjective m.req ∧ ∀ n ∈ pathParamNames (resolvedPath s.base m.path), n ∈ m.req
+/-- **Client API exactness** on the composed models compile → structure → client, full strength
+for declared services: whenever the compiler accepts the service (`compileService` succeeds) and
+distinct request properties have distinct proto field names, the chain succeeds and yields
+exactly `<Name>Service` with the declared methods in order, each with the declared verb, the
+declared (base-path-resolved) path, the request properties split by that path and verb, and the
+declared response (none for a raw `HttpBody` method). Not in this model: services generated from
+entities (C17's model), schemas / auth / options of the methods. -/
+theorem C16_client_exact (pkg : Str) (s : ServiceDecl) (d : DService)
+    (hinj : ∀ m ∈ s.methods, SnakeInjective m.req) (hacc : compileService pkg s = .ok d) :
+    chainService pkg s = .ok (declaredService s) :=
+  chainService_valid pkg s (validService_of_compiled pkg s d hinj hacc)
 
-instance (s : ServiceDecl) : Decidable (CompilerAccepts s) := by
-  unfold CompilerAccepts; infer_instance
-
-def ClientExactFull : Prop :=
-  ∀ (pkg : Str) (s : ServiceDecl), CompilerAccepts s → chainService pkg s = .ok (declaredService s)
-
-/-- false as long as the compiler lets literal path parts with `{ } * :` through (open finding) -/
-theorem C16_client_exact_counterexample : ¬ ClientExactFull := by
-  intro h
-  have := h b!"foo.v1.service"
-    { name := b!"Foo", base := none,
-      methods := [{ name := b!"Get", verb := .get, path := b!"/a:b", req := [], hasResp := true }] }
-    (by decide)
-  revert this
-  decide
-
-/-- **Client API exactness** on the composed models compile → structure → client: for a declared
-service whose methods satisfy `ValidMethod` (what the compiler checks, plus `LiteralsClean`), the
-chain succeeds and yields exactly `<Name>Service` with the declared methods in order, each with
-the declared verb, the declared (base-path-resolved) path, the request properties split by that
-path and verb, and the declared response (none for a raw `HttpBody` method). Partial: the extra
-hypothesis `LiteralsClean` (open finding), and services generated from entities are not in this
-model (C17). -/
-theorem C16_client_exact_partial (pkg : Str) (s : ServiceDecl) (h : ValidService s) :
+/-- the same from the decidable description of what the compiler checks -/
+theorem C16_client_exact_valid (pkg : Str) (s : ServiceDecl) (h : ValidService s) :
     chainService pkg s = .ok (declaredService s) :=
   chainService_valid pkg s h
+
+/-- the chain never panics on the service part, whatever is declared -/
+theorem C16_chain_no_panic (pkg : Str) (s : ServiceDecl) (hinj : ∀ m ∈ s.methods, SnakeInjective m.req)
+    (w : String) : chainService pkg s ≠ .panic w := by
+  cases hc : compileService pkg s with
+  | ok d => rw [C16_client_exact pkg s d hinj hc]; simp
+  | err e => unfold chainService; rw [hc]; simp
+  | panic w' => exact absurd hc (compileService_no_panic pkg s w')
 
 /-! ## Non-vacuity -/
 
@@ -199,13 +205,16 @@ def exampleService : ServiceDecl :=
 
 example : ValidService exampleService := by decide
 example : chainService b!"foo.v1.service" exampleService = .ok (declaredService exampleService) :=
-  C16_client_exact_partial _ _ (by decide)
+  C16_client_exact_valid _ _ (by decide)
+example : (compileService b!"foo.v1.service" exampleService).isOk = true ∧
+    ∀ m ∈ exampleService.methods, SnakeInjective m.req := by decide
 /-- … and the declared client really has the resolved path and the split one expects -/
 example : (declaredService exampleService).methods.map (fun m => (m.path, m.request)) =
     [(b!"/foo/v1/bars/:barID/x/:foo_bar", { path := [b!"barID", b!"foo_bar"], query := [b!"q"], body := none }),
      (b!"/foo/v1/dl/:id", { path := [b!"id"], query := [], body := some [b!"body"] })] := by decide
 example : rewrite [b!"q", b!"barID"] b!"/bars/:barID" = .ok b!"/bars/{bar_id}" := by decide
 example : LiteralsClean b!"/bars/:barID/x" ∧ SnakeInjective [b!"q", b!"barID"] := by decide
+example : ¬ LiteralsClean b!"/files/*" := by decide
 example : ¬ SnakeInjective [b!"fooId", b!"foo_id"] := by decide
 
 /-- a graph with a self loop, a two-cycle through a oneof, an enum leaf and an array edge -/
@@ -220,6 +229,7 @@ def exampleGraph : Graph :=
 example : (walk exampleGraph 0).map (fun o => o.map (fun vs => vs.map (·.path))) =
     some (.ok [[b!"name"], [b!"self"], [b!"alt"], [b!"alt", b!"back"], [b!"alt", b!"kind"], [b!"alt", b!"many"]]) := by
   decide
+example : Linked exampleGraph := by decide
 example : collect exampleGraph [.object 0] = some [3, 2, 1, 0] := by decide
 example : Reach exampleGraph [.object 0] 3 :=
   .step (.step (.root (f := .object 0) (by simp) rfl (by decide)) ⟨_, rfl, _, by simp [Node.walkProps]; exact Or.inr (Or.inr rfl), rfl, by decide⟩)
@@ -259,7 +269,7 @@ theorem C16_src_producer_names :
     producerServiceFormats = ["%sRequest", "google.api.HttpBody", "%sResponse", "Service"]
     ∧ producerTopicFormats = ["%sMessage", "%sTopic"]
     ∧ producerRewriteFacts = ["strings.Split \"/\"", "strings.HasPrefix \":\"", "strcase.ToSnake <*ast.SliceExpr>",
-        "assign {}", "strings.Join \"/\""] := by decide
+        "assign {}", "strings.ContainsAny \"{}*:\"", "strings.Join \"/\""] := by decide
 
 /-- `methodFromSource` / `fillRequest` read the verb, the raw-response marker and the path the way
 `Verb.hasBody`, `isRawResponse` and `pathParamNames` do -/
